@@ -252,14 +252,17 @@ func runC10(c *fw.Ctx) {
 	lostCandidate := ""
 	if ok, why := e.waitBarriers(want, 60*time.Second); !ok {
 		// Either convergence is slow (inconclusive) or routing / delivery itself is broken. The
-		// leaders run in this process: if nothing has been in flight to any follower for 10s
+		// leaders run in this process: if nothing has been in flight to any follower for 45s
 		// (submitted == delivered, both unchanged), whatever is missing now is lost for good and
 		// the placement check below says where.
-		if !c10Drained(10 * time.Second) {
+		if !c10Drained(45 * time.Second) {
 			c.Inconclusive("barrier never became visible and entries are still in flight: %s", why)
 			return
 		}
-		lostCandidate = why
+		// the pipeline has been completely idle for 45s: whatever was going to arrive has arrived
+		if ok2, why2 := e.waitBarriers(want, 5*time.Second); !ok2 {
+			lostCandidate = why2
+		}
 		c.Obs("barrier_timeouts_with_drained_pipeline", 1)
 	}
 	if !e.solo.WaitCaughtUp(quiesceTimeout) {
@@ -299,13 +302,53 @@ func runC10(c *fw.Ctx) {
 		sql := strings.Replace(g.SQL, " FROM t", " FROM "+d.spec.Name, -1)
 		repeats := len(e.cl.Followers[0])
 		for rep := 0; rep < repeats && !c.Violated(); rep++ {
-			var local, dist *dbh.Result
-			same := false
-			for attempt := 0; attempt < 3 && !same; attempt++ {
-				local = e.solo.Query(sql, true)
-				dist = dbh.RunQuery(ctxBackground(), e.cl.Leaders[(qi+rep)%len(e.cl.Leaders)].DB, sql, true, nil)
-				same = local.Failed() || dist.Failed() || local.Until.Equal(dist.Until)
+			// One pair = the statement on the standalone database and on the cluster. Every node derives its own
+			// "now" from the real clock (the leader, each follower, the standalone), so a pair that straddles a
+			// period boundary can legitimately differ: a pair is only judged when standalone and leader agree on
+			// until, and a disagreement is only reported when it shows in three consecutive pairs (a genuine
+			// defect is deterministic, a boundary artefact is not).
+			runPair := func() (local, dist *dbh.Result, same bool) {
+				for attempt := 0; attempt < 3 && !same; attempt++ {
+					local = e.solo.Query(sql, true)
+					dist = dbh.RunQuery(ctxBackground(), e.cl.Leaders[(qi+rep)%len(e.cl.Leaders)].DB, sql, true, nil)
+					same = local.Failed() || dist.Failed() || local.Until.Equal(dist.Until)
+				}
+				return
 			}
+			judge := func(local, dist *dbh.Result) (sig, detail string) {
+				if local.Failed() != dist.Failed() {
+					return "c10-error-differs", fmt.Sprintf("%q: standalone %q vs cluster %q", sql, local.ErrString(), dist.ErrString())
+				}
+				if local.Failed() {
+					return "", ""
+				}
+				orderCheck := func() (string, string) {
+					keys := c11OrderKeys(sql)
+					for i := range local.Rows {
+						if a, b := tupleOf(local, &local.Rows[i], keys), tupleOf(dist, &dist.Rows[i], keys); a != b {
+							return "c10-order-differs", fmt.Sprintf("%q: row %d has key tuple (%s) on the standalone and (%s) on the cluster", sql, i, a, b)
+						}
+					}
+					return "", ""
+				}
+				if g.HasLimit {
+					if len(local.Rows) != len(dist.Rows) {
+						return "c10-limit-count", fmt.Sprintf("%q: standalone returns %d rows, cluster %d", sql, len(local.Rows), len(dist.Rows))
+					}
+					if g.HasOrder {
+						return orderCheck()
+					}
+					return "", ""
+				}
+				if diff := dbh.Diff(local, dist, 1e-9); diff != "" {
+					return "c10-rows-differ", fmt.Sprintf("%q: the cluster (%d partitions) returns different rows than the standalone database: %s", sql, e.N, diff)
+				}
+				if g.HasOrder {
+					return orderCheck()
+				}
+				return "", ""
+			}
+			local, dist, same := runPair()
 			c.Obs("queries", 1)
 			if len(samples) < 5 && rep == 0 {
 				samples = append(samples, sql)
@@ -314,45 +357,26 @@ func runC10(c *fw.Ctx) {
 				c.Obs("pairs_skipped_clock_boundary", 1)
 				continue
 			}
-			data := map[string]interface{}{"cluster": desc, "sql": sql, "cluster_plan": dist.Plan, "stats": fmt.Sprintf("%+v", dist.Stats)}
-			if local.Failed() != dist.Failed() {
-				c.ViolateData("c10-error-differs", data, "%q: standalone %q vs cluster %q", sql, local.ErrString(), dist.ErrString())
+			sig, detail := judge(local, dist)
+			for retry := 0; sig != "" && retry < 2; retry++ {
+				l2, d2, same2 := runPair()
+				if !same2 {
+					sig = ""
+					c.Obs("pairs_skipped_clock_boundary", 1)
+					break
+				}
+				local, dist = l2, d2
+				if sig, detail = judge(local, dist); sig == "" {
+					c.Obs("transient_disagreements_not_reproduced", 1)
+				}
+			}
+			if sig != "" {
+				data := map[string]interface{}{"cluster": desc, "sql": sql, "cluster_plan": dist.Plan, "stats": fmt.Sprintf("%+v", dist.Stats)}
+				c.ViolateData(sig, data, "%s (same disagreement in three consecutive runs of the pair)", detail)
 				continue
 			}
-			if local.Failed() {
-				continue
-			}
-			if strings.Contains(dist.Plan, "cluster select") && len(local.Rows) > 0 {
+			if !local.Failed() && strings.Contains(dist.Plan, "cluster select") && len(local.Rows) > 0 {
 				nonPushdownRows++
-			}
-			if g.HasLimit {
-				if len(local.Rows) != len(dist.Rows) {
-					c.ViolateData("c10-limit-count", data, "%q: standalone returns %d rows, cluster %d", sql, len(local.Rows), len(dist.Rows))
-					continue
-				}
-				if g.HasOrder {
-					keys := c11OrderKeys(sql)
-					for i := range local.Rows {
-						if a, b := tupleOf(local, &local.Rows[i], keys), tupleOf(dist, &dist.Rows[i], keys); a != b {
-							c.ViolateData("c10-order-differs", data, "%q: row %d has key tuple (%s) on the standalone and (%s) on the cluster", sql, i, a, b)
-							break
-						}
-					}
-				}
-				continue
-			}
-			if diff := dbh.Diff(local, dist, 1e-9); diff != "" {
-				c.ViolateData("c10-rows-differ", data, "%q: the cluster (%d partitions) returns different rows than the standalone database: %s", sql, e.N, diff)
-				continue
-			}
-			if g.HasOrder {
-				keys := c11OrderKeys(sql)
-				for i := range local.Rows {
-					if a, b := tupleOf(local, &local.Rows[i], keys), tupleOf(dist, &dist.Rows[i], keys); a != b {
-						c.ViolateData("c10-order-differs", data, "%q: row %d has key tuple (%s) on the standalone and (%s) on the cluster", sql, i, a, b)
-						break
-					}
-				}
 			}
 		}
 	}
@@ -427,11 +451,18 @@ func c10Placement(c *fw.Ctx, e *c10Env, desc interface{}) int {
 	return len(ps)
 }
 
-// c10Drained reports whether the leader-side follower queues have been empty and idle for d.
+// c10Drained reports whether the leader-side follow pipeline has been completely idle for at least d (never less
+// than 45s): nothing submitted to or delivered by any follower queue during that time, and submitted == delivered.
+// "Idle" rather than "queues empty at one instant": on a loaded machine the leader may simply not have read the
+// newest WAL entries yet, in which case the counters still move every few hundred milliseconds; only a pipeline
+// that has finished - or is wedged - stays frozen that long. Gives up (false) after d + 4 minutes of movement.
 func c10Drained(d time.Duration) bool {
+	if d < 45*time.Second {
+		d = 45 * time.Second
+	}
 	last := ""
 	since := time.Now()
-	deadline := time.Now().Add(d + 20*time.Second)
+	deadline := time.Now().Add(d + 4*time.Minute)
 	for time.Now().Before(deadline) {
 		cnt := zenodb.VerifCounts()
 		cur := fmt.Sprintf("%d/%d", cnt["follow.submitted"], cnt["follow.delivered"])
